@@ -56,7 +56,7 @@ def budgets(tier, size):
         return {"tlflip": 12, "lenform": 8, "lenpm": 2, "tagform": 4, "indef": 2, "generic": 4, "headbytes": 6, "trunc_every": 24, "trunc_sample": 8}
     if q:
         return {"tlflip": 40, "lenform": 14, "lenpm": 3, "tagform": 8, "indef": 3, "generic": 8, "headbytes": 6, "trunc_every": 120, "trunc_sample": 16}
-    return {"tlflip": 200, "lenform": 60, "lenpm": 8, "tagform": 30, "indef": 8, "generic": 30, "headbytes": 12, "trunc_every": 600, "trunc_sample": 60}
+    return {"tlflip": 100, "lenform": 30, "lenpm": 5, "tagform": 16, "indef": 5, "generic": 16, "headbytes": 10, "trunc_every": 300, "trunc_sample": 30}
 
 
 def mutants(syn, b, rng, tier, others):
@@ -263,7 +263,7 @@ def uper_modes(model, cases, mods):
 
 
 def model_layer(run, rng, tier, model):
-    nm, nt, nv = (8, 5, 5) if tier == "quick" else (40, 6, 10)
+    nm, nt, nv = (8, 5, 5) if tier == "quick" else (20, 6, 8)
     mods, cases = build_corpus(run, rng, nm, nt, nv, tier, tag="mods", moddrv_extra=INC, extra_ldflags=WRAP)
     tlog("model: corpus of %d modules, %d cases built" % (len(mods), len(cases)))
     run.cov["model_has_choice_order_fix"] = uper_modes(model, cases, mods)
@@ -441,7 +441,7 @@ def deep_inputs(syn, b, rng):
 
 def wide_layer(run, rng, tier):
     """modules over the wide algebra (no model): survival and consistency of all decoders on mutated inputs"""
-    nmod, nty, nval = (6, 4, 2) if tier == "quick" else (30, 5, 6)
+    nmod, nty, nval = (6, 4, 2) if tier == "quick" else (16, 5, 4)
     wg = WGen(rng, features=WIDE_FEATURES)
     wmods = []
     for i in range(nmod * 4):
@@ -481,7 +481,7 @@ def wide_layer(run, rng, tier):
     xres = run_many(xjobs)
     tlog("wide: values and their encodings obtained")
     jobs = []
-    maxlines = 1500 if tier == "quick" else 20000
+    maxlines = 1500 if tier == "quick" else 6000
     for m, (exe, xl), (xo, xe) in zip(live, xjobs, xres):
         # an ENCODER dying on a value of asn_random_fill is C07/C01's subject; it only costs this check an input
         run.count("wide_encoder_died", len(xe))
